@@ -27,24 +27,46 @@ structure DState where
   b : Broker := Broker.init 0
   /-- absolute ms of the last op -/
   last : Nat := t0ms
+  /-- model epochs in the order of their first appearance in an output line (the harness numbers
+  the Go epoch strings the same way) -/
+  seen : List Nat := []
+
+/-- printed index of a model epoch (0 = empty epoch), registering it when new -/
+def canonEp (seen : List Nat) (e : Nat) : List Nat × Nat :=
+  if e = 0 then (seen, 0) else
+  match seen.findIdx? (· == e) with
+  | some i => (seen, i + 1)
+  | none => (seen ++ [e], seen.length + 1)
+
+/-- the model epoch a printed index in an *input* line refers to; an index not handed out yet is a
+bogus epoch (never equal to a real one) -/
+def resolveEp (seen : List Nat) (k : Nat) : Nat :=
+  if k = 0 then 0 else
+  match seen[k - 1]? with
+  | some e => e
+  | none => 1000000000 + k
+
+def resolveFilter (seen : List Nat) (f : Filter) : Filter :=
+  { f with since := f.since.map fun p => { p with epoch := resolveEp seen p.epoch } }
 
 def runTicks (b : Broker) (fromS toS : Nat) : Broker :=
   (List.range' (fromS + 1) (toS - fromS)).foldl (fun b s => b.tick s) b
 
 /-- advance to absolute time `now` (ms) -/
 def DState.advance (d : DState) (now : Nat) : DState :=
-  if now ≤ d.last then d else { b := runTicks d.b (d.last / 1000) (now / 1000), last := now }
+  if now ≤ d.last then d else { d with b := runTicks d.b (d.last / 1000) (now / 1000), last := now }
 
 def fmtItem (it : Item Pub) : String := s!"{it.offset}/{it.value.data}"
 
 def fmtItems (l : List (Item Pub)) : String :=
   if l.isEmpty then "-" else joinWith "," (l.map fmtItem)
 
-def fmtBcast : Option Bcast → String
+/-- `ep` = printed index of the broadcast position's epoch -/
+def fmtBcast (ep : Nat) : Option Bcast → String
   | none => "-"
   | some bc =>
     let prev := match bc.prev with | none => "-" | some p => fmtItem p
-    s!"{fmtItem bc.pub}@{bc.sp.offset}:{bc.sp.epoch};d={if bc.useDelta then 1 else 0};prev={prev}"
+    s!"{fmtItem bc.pub}@{bc.sp.offset}:{ep};d={if bc.useDelta then 1 else 0};prev={prev}"
 
 def fmtSup : Suppress → String
   | .none => "none" | .idempotency => "idem" | .version => "ver"
@@ -87,22 +109,28 @@ def stepLine (d : DState) (line : String) : DState × String :=
     | some m =>
       -- node.go `New`: `if c.HistoryMetaTTL == 0 { c.HistoryMetaTTL = 30 * 24 * time.Hour }`
       let m := if m = 0 then 2592000000 else m
-      ({ b := Broker.init m, last := t0ms }, s!"ok t0={t0ms}")
+      ({ b := Broker.init m, last := t0ms, seen := [] }, s!"ok t0={t0ms}")
     | none => (d, "bad-op")
   | "pub" :: ch :: data :: rest =>
     match parsePubOpts rest, atTime rest with
     | some o, some t =>
       let d := d.advance (t0ms + t)
       let r := d.b.publish ch data o d.last
-      ({ d with b := r.1 },
-        s!"off={r.2.pos.offset} ep={r.2.pos.epoch} sup={fmtSup r.2.suppress} bc={fmtBcast r.2.bcast}")
+      -- the harness canonicalises the broadcast's epoch first, then the result's
+      let (seen, bep) := match r.2.bcast with
+        | some bc => canonEp d.seen bc.sp.epoch
+        | none => (d.seen, 0)
+      let (seen, ep) := canonEp seen r.2.pos.epoch
+      ({ d with b := r.1, seen := seen },
+        s!"off={r.2.pos.offset} ep={ep} sup={fmtSup r.2.suppress} bc={fmtBcast bep r.2.bcast}")
     | _, _ => (d, "bad-op")
   | "get" :: ch :: rest =>
     match parseFilter rest, kvNat rest "meta", atTime rest with
     | some f, some m, some t =>
       let d := d.advance (t0ms + t)
-      let r := d.b.history ch f m d.last
-      ({ d with b := r.1 }, s!"pos={r.2.2.offset}:{r.2.2.epoch} pubs={fmtItems r.2.1}")
+      let r := d.b.history ch (resolveFilter d.seen f) m d.last
+      let (seen, ep) := canonEp d.seen r.2.2.epoch
+      ({ d with b := r.1, seen := seen }, s!"pos={r.2.2.offset}:{ep} pubs={fmtItems r.2.1}")
     | _, _, _ => (d, "bad-op")
   | "rm" :: ch :: rest =>
     match atTime rest with
